@@ -17,6 +17,11 @@ kinds (default: all):
   demorgan  one `not (a and b)` / `not (a or b)` in a test is distributed; one `a and b` test becomes `not (not a or not b)`
   kw2pos    one call of a module-level function passes a keyword argument positionally when the signature allows it
   ifexp     one `if c: t = A else: t = B` becomes `t = A if c else B`, or the reverse for `t = A if c else B`
+  methalias one call `self.m(...)` of a method defined in the same class, or `x.append/extend/add/pop(...)` on a local
+            container created once at the top of the function, goes through a local bound to the bound method beforehand
+  attralias every read of one `self.attr` that is assigned only in __init__ goes through a local bound at the function's top
+  retifexp  one `if c: return A else: return B` (or `if c: return A` + `return B`) becomes `return A if c else B`
+  tupassign two consecutive independent simple assignments `a = x; b = y` become `a, b = x, y`
 
 usage: twin_probe.py [PROP ...] [--kinds rename,cmpflip,...] [--params] [--jobs N]
 Nothing is written to /repo: every variant is an in-memory overlay.
@@ -125,6 +130,8 @@ def _pure(e):
 
 
 MODFUNCS = {}
+INIT_ONLY_ATTRS = set()      # attribute names assigned (module-wide) only inside __init__ / __new__
+CLASS_METHODS = {}           # lineno of a method -> names of the methods defined in its class
 
 
 def _replace_stmt(tree, node, repl):
@@ -150,6 +157,7 @@ def shape_variants(src, fn, kinds):
     fsrc = _fn_source(lines, fn)
     base = ast.parse(fsrc)
     sites = []
+    seen_attr = set()
     for i, n in enumerate(ast.walk(base)):
         if 'cmpflip' in kinds and isinstance(n, ast.Compare) and len(n.ops) == 1 and type(n.ops[0]) in FLIP and \
                 _pure(n.left) and _pure(n.comparators[0]):
@@ -188,6 +196,32 @@ def shape_variants(src, fn, kinds):
             sites.append(('ifexp-rev', i))
         if 'kw2pos' in kinds and isinstance(n, ast.Call) and isinstance(n.func, ast.Name) and n.func.id in MODFUNCS and n.keywords:
             sites.append(('kw2pos', i))
+        if 'methalias' in kinds and isinstance(n, ast.Call) and isinstance(n.func, ast.Attribute) and isinstance(n.func.value, ast.Name):
+            sites.append(('methalias', i))
+        if 'attralias' in kinds and isinstance(n, ast.Attribute) and isinstance(n.ctx, ast.Load) and isinstance(n.value, ast.Name) and \
+                n.value.id == 'self' and n.attr in INIT_ONLY_ATTRS and n.attr not in seen_attr:
+            seen_attr.add(n.attr)
+            sites.append(('attralias', i))
+        if 'retifexp' in kinds:
+            for field in ('body', 'orelse', 'finalbody'):
+                blk = getattr(n, field, None)
+                if isinstance(blk, list):
+                    for j, st in enumerate(blk):
+                        if isinstance(st, ast.If) and len(st.body) == 1 and isinstance(st.body[0], ast.Return) and st.body[0].value is not None:
+                            if len(st.orelse) == 1 and isinstance(st.orelse[0], ast.Return) and st.orelse[0].value is not None:
+                                sites.append(('retifexp:%s:%d:else' % (field, j), i))
+                            elif not st.orelse and j + 1 < len(blk) and isinstance(blk[j + 1], ast.Return) and blk[j + 1].value is not None:
+                                sites.append(('retifexp:%s:%d:next' % (field, j), i))
+        if 'tupassign' in kinds:
+            for field in ('body', 'orelse', 'finalbody'):
+                blk = getattr(n, field, None)
+                if isinstance(blk, list):
+                    for j in range(len(blk) - 1):
+                        a, b = blk[j], blk[j + 1]
+                        if all(isinstance(x, ast.Assign) and len(x.targets) == 1 and isinstance(x.targets[0], ast.Name) and _pure(x.value)
+                               for x in (a, b)) and a.targets[0].id != b.targets[0].id and \
+                                a.targets[0].id not in {y.id for y in ast.walk(b.value) if isinstance(y, ast.Name)}:
+                            sites.append(('tupassign:%s:%d' % (field, j), i))
     # docstrings and f-string parts are not hoistable
     skip_ids = set()
     for n in ast.walk(base):
@@ -286,6 +320,67 @@ def shape_variants(src, fn, kinds):
             what = 'line %d: %s(... %s=...)' % (fn.lineno + orig.lineno - 1, n.func.id, n.keywords[0].arg)
             n.args.append(n.keywords[0].value)
             del n.keywords[0]
+        elif kind == 'methalias':
+            f0 = tree.body[0]
+            recv, meth = n.func.value.id, n.func.attr
+            params = {a.arg for a in ast.walk(f0.args) if isinstance(a, ast.arg)}
+            stores = [x for x in ast.walk(f0) if isinstance(x, ast.Name) and x.id == recv and isinstance(x.ctx, (ast.Store, ast.Del))]
+            doc = 1 if (f0.body and isinstance(f0.body[0], ast.Expr) and isinstance(f0.body[0].value, ast.Constant)) else 0
+            alias = ast.Assign(targets=[ast.Name(id='_tw_bound', ctx=ast.Store())], value=ast.Attribute(
+                value=ast.Name(id=recv, ctx=ast.Load()), attr=meth, ctx=ast.Load()), lineno=f0.lineno)
+            if recv == 'self' and recv in params and not stores and meth in CLASS_METHODS.get(fn.lineno, ()):
+                f0.body.insert(doc, alias)
+            elif recv not in params and len(stores) == 1 and meth in ('append', 'extend', 'add', 'pop', 'update', 'discard'):
+                # a container created once by a top-level statement of the function, before this call
+                mk = [j for j, st in enumerate(f0.body) if isinstance(st, ast.Assign) and len(st.targets) == 1 and
+                      isinstance(st.targets[0], ast.Name) and st.targets[0].id == recv and
+                      (isinstance(st.value, (ast.List, ast.Set, ast.Dict)) or
+                       (isinstance(st.value, ast.Call) and isinstance(st.value.func, ast.Name) and
+                        st.value.func.id in ('list', 'set', 'dict', 'deque') and not st.value.args))]
+                if not mk or f0.body[mk[0]].lineno >= n.lineno:
+                    continue
+                f0.body.insert(mk[0] + 1, alias)
+            else:
+                continue
+            what = 'line %d: %s.%s(...) through a local' % (fn.lineno + orig.lineno - 1, recv, meth)
+            n.func = ast.Name(id='_tw_bound', ctx=ast.Load())
+        elif kind == 'attralias':
+            f0 = tree.body[0]
+            if f0.name in ('__init__', '__new__') or 'self' not in {a.arg for a in f0.args.args}:
+                continue
+            if any(isinstance(x, ast.Name) and x.id == 'self' and isinstance(x.ctx, (ast.Store, ast.Del)) for x in ast.walk(f0)):
+                continue
+            attr = n.attr
+            what = 'line %d: self.%s read through a local' % (fn.lineno + orig.lineno - 1, attr)
+
+            class _R(ast.NodeTransformer):
+                def visit_Attribute(self, a):
+                    self.generic_visit(a)
+                    if isinstance(a.ctx, ast.Load) and isinstance(a.value, ast.Name) and a.value.id == 'self' and a.attr == attr:
+                        return ast.Name(id='_tw_attr', ctx=ast.Load())
+                    return a
+            doc = 1 if (f0.body and isinstance(f0.body[0], ast.Expr) and isinstance(f0.body[0].value, ast.Constant)) else 0
+            f0.body = f0.body[:doc] + [_R().visit(st) for st in f0.body[doc:]]
+            f0.body.insert(doc, ast.Assign(targets=[ast.Name(id='_tw_attr', ctx=ast.Store())], value=ast.Attribute(
+                value=ast.Name(id='self', ctx=ast.Load()), attr=attr, ctx=ast.Load()), lineno=f0.lineno))
+        elif kind.startswith('retifexp'):
+            _, field, j, form = kind.split(':')
+            blk = getattr(n, field)
+            st = blk[int(j)]
+            what = 'line %d: if %s: return ...' % (fn.lineno + st.lineno - 1, ast.unparse(st.test)[:50])
+            other = st.orelse[0].value if form == 'else' else blk[int(j) + 1].value
+            repl = ast.Return(value=ast.IfExp(test=st.test, body=st.body[0].value, orelse=other), lineno=st.lineno)
+            blk[int(j):int(j) + (1 if form == 'else' else 2)] = [repl]
+            kind = 'retifexp'
+        elif kind.startswith('tupassign'):
+            _, field, j = kind.split(':')
+            blk = getattr(n, field)
+            a, b = blk[int(j)], blk[int(j) + 1]
+            what = 'line %d: %s; %s' % (fn.lineno + a.lineno - 1, ast.unparse(a)[:30], ast.unparse(b)[:30])
+            repl = ast.Assign(targets=[ast.Tuple(elts=[a.targets[0], b.targets[0]], ctx=ast.Store())],
+                              value=ast.Tuple(elts=[a.value, b.value], ctx=ast.Load()), lineno=a.lineno)
+            blk[int(j):int(j) + 2] = [repl]
+            kind = 'tupassign'
         elif kind == 'hoist':
             if id(orig) in skip_ids:
                 continue
@@ -333,7 +428,7 @@ def job(args):
 
 
 ALL_KINDS = {'rename', 'cmpflip', 'ifswap', 'elif', 'rettemp', 'hoist', 'augassign', 'nestif', 'elseret', 'while1', 'demorgan',
-             'kw2pos', 'ifexp'}
+             'kw2pos', 'ifexp', 'methalias', 'attralias', 'retifexp', 'tupassign'}
 
 
 def variants_for(prop, kinds=None, with_params=True):
@@ -348,6 +443,25 @@ def variants_for(prop, kinds=None, with_params=True):
         for st in tree.body:
             if isinstance(st, ast.FunctionDef) and not st.args.vararg and not st.args.posonlyargs:
                 MODFUNCS[st.name] = [a.arg for a in st.args.args]
+        INIT_ONLY_ATTRS.clear()
+        CLASS_METHODS.clear()
+        stored_in = {}
+        dyn = False
+        for f_ in [x for x in ast.walk(tree) if isinstance(x, (ast.FunctionDef, ast.AsyncFunctionDef))]:
+            for x in ast.walk(f_):
+                if isinstance(x, ast.Attribute) and isinstance(x.ctx, (ast.Store, ast.Del)):
+                    stored_in.setdefault(x.attr, set()).add(f_.name)
+                elif isinstance(x, ast.Call) and isinstance(x.func, ast.Name) and x.func.id in ('setattr', 'delattr'):
+                    dyn = True
+        if not dyn:
+            INIT_ONLY_ATTRS.update(a for a, fs in stored_in.items() if fs <= {'__init__', '__new__'})
+        for c in [x for x in ast.walk(tree) if isinstance(x, ast.ClassDef)]:
+            names = {m_.name for m_ in c.body if isinstance(m_, ast.FunctionDef) and
+                     not any(isinstance(d, ast.Name) and d.id in ('property', 'staticmethod', 'classmethod', 'cachedproperty') or
+                             isinstance(d, ast.Attribute) for d in m_.decorator_list)}
+            for m_ in c.body:
+                if isinstance(m_, ast.FunctionDef):
+                    CLASS_METHODS[m_.lineno] = names
         for fn in function_nodes(tree):
             if 'rename' in kinds:
                 for old in locals_of(fn, with_params):
